@@ -259,6 +259,7 @@ class Folder:
     def __init__(self, resolver=None, max_steps=200000, symbolic=False):
         self.resolver = resolver
         self.symbolic = symbolic
+        self.trace = []  # symbolic applications in evaluation order
         self.steps = 0
         self.max_steps = max_steps
 
@@ -302,6 +303,35 @@ class Folder:
 
     def e_Dict(self, n, env):
         return {self.ev(k, env): self.ev(v, env) for k, v in zip(n.keys, n.values)}
+
+    def _comp(self, n, env, emit):
+        def rec(i, env2):
+            if i == len(n.generators):
+                emit(env2)
+                return
+            g = n.generators[i]
+            it = self.ev(g.iter, env2)
+            if isinstance(it, Arr):
+                it = it.data
+            if not isinstance(it, (list, tuple, str, frozenset, dict)):
+                raise Refuse("comprehension over non-literal")
+            for x in it:
+                e3 = dict(env2)
+                self.assign(g.target, x, e3)
+                if all(self.truth(self.ev(c, e3)) for c in g.ifs):
+                    rec(i + 1, e3)
+        rec(0, dict(env))
+
+    def e_ListComp(self, n, env):
+        out = []
+        self._comp(n, env, lambda e: out.append(self.ev(n.elt, e)))
+        return out
+
+    def e_GeneratorExp(self, n, env):
+        return self.e_ListComp(n, env)
+
+    def e_SetComp(self, n, env):
+        return frozenset(self.e_ListComp(n, env))
 
     def e_JoinedStr(self, n, env):
         return "<fstring>"
@@ -491,8 +521,12 @@ class Folder:
                     recv = None
                 if isinstance(recv, (Opaque, Obj, Sym)):
                     label = recv.label if not isinstance(recv, Sym) else repr(recv)
-                    return Sym(f"{label}.{f.attr}", args, kw)
-            return Sym(" ".join(ast.unparse(f).split()), args, kw)
+                    sy = Sym(f"{label}.{f.attr}", args, kw)
+                    self.trace.append(sy)
+                    return sy
+            sy = Sym(" ".join(ast.unparse(f).split()), args, kw)
+            self.trace.append(sy)
+            return sy
         raise Refuse(f"call of {ast.unparse(f)}")
 
     # builtin models ---------------------------------------------------------------
